@@ -296,9 +296,12 @@ func (store ItemVarStore) GetDelta(index VariationStoreIndex, coords []Coord) fl
 	}
 	deltaSet := varData.DeltaSets[index.DeltaSetInner]
 	var delta float32
+	regions := store.VariationRegionList.VariationRegions
 	for i, regionIndex := range varData.RegionIndexes {
-		region := store.VariationRegionList.VariationRegions[regionIndex]
-		v := region.Evaluate(coords)
+		if int(regionIndex) >= len(regions) || i >= len(deltaSet) {
+			continue // invalid region: no contribution, as in harfbuzz
+		}
+		v := regions[regionIndex].Evaluate(coords)
 		delta += float32(deltaSet[i]) * v
 	}
 	return delta
@@ -308,6 +311,9 @@ func (store ItemVarStore) GetDelta(index VariationStoreIndex, coords []Coord) fl
 func (vr VariationRegion) Evaluate(coords []Coord) float32 {
 	v := float32(1)
 	for axis, coord := range coords {
+		if axis >= len(vr.RegionAxes) {
+			break // more coordinates than the region has axes
+		}
 		factor := vr.RegionAxes[axis].evaluate(coord)
 		v *= factor
 	}
